@@ -6,12 +6,12 @@ PROP = {
     "level": "exploration",
     "technique": "runtime monitor with execution oracle: generated loop-free programs with probes run in the luars Lua 5.5 VM; SemanticModel::infer_expr at each reached probe must contain the runtime type under a conservative concretisation",
     "design_ref": "§4 C15",
-    "rule": "case = G-flow program (4 locals initialised with literals of every basic type, 6-16 further statements: reassignment from a literal or another local, swap, shadowing re-declaration, "
+    "rule": "case = G-flow program (16 x 3000 quick / 16 x 120000 thorough; 4 locals initialised with literals of every basic type, 6-16 further statements: reassignment from a literal or another local, swap, shadowing re-declaration, "
             "immutable condition alias `local c = <guard>`, do-blocks, if/elseif/else nested <= 3 over guards built from type(x)==/~=\"T\" (both operand orders, incl. names type() never returns), "
             "x==nil, x~=nil, truthiness, not, and, or), `__probe(k, x)` at branch entries, after assignments and at merge points; "
             "distinct = FNV of the sorted guard-shape paths of the reached probes; non-trivial = >= 6 reached probes judged and >= 1 of them inside a guarded branch",
-    "min_nontrivial": {"quick": 6000, "thorough": 200000},
-    "max_secs": {"quick": 75, "thorough": 900},
+    "min_nontrivial": {"quick": 12000, "thorough": 400000},
+    "max_secs": {"quick": 60, "thorough": 900},
     "require_clauses": ["probe:reached-and-judged"],
     "assumptions": COMMON_ASSUME + [
         "luars 0.26.2 executes this fragment like Lua 5.5 (type(), ==, and/or/not on literals and locals)",
